@@ -116,16 +116,31 @@ Definition is_clean_failure (o : pass_result) : bool :=
   match o with PassInitError | PassCtorError | PassSkipped => true | _ => false end.
 
 (* ---------------- round 5: what the command-line arguments yield ----------------
-   loadProgram hands the patterns to pkgload.LoadPackages and never looks at the packages' Errors; pkgload passes
-   over packages without a name. An argument that yields no package with files (missing directory or file,
-   pattern without match, directory without Go files, unknown import path, `go list` giving up) therefore
-   changes nothing: the run goes on with whatever else was loaded. *)
+   loadProgram calls packages.Load itself and refuses, before anything is analysed, an empty package list and every
+   package without a name or without files (missing directory or file, pattern without match, directory without Go
+   files, missing package clause, unknown import path, `go list` giving up): "load program: <id>: <error>". *)
 Record target_config := {
   tc_base : cli_config;
   tc_all_targets_yield : bool    (* every argument yields at least one package with files *)
 }.
-Definition run_cli_targets (c : target_config) : cli_outcome := run_cli (tc_base c).
+Definition target_steps (c : target_config) : list (string * option cli_outcome) :=
+  let b := tc_base c in
+  [ ("parse args", if args_parse_ok b then None else Some (Fatal "parse args"));
+    ("load program",
+       if negb (load_ok b) then Some (Fatal "load packages")
+       else if negb (tc_all_targets_yield c) then Some (Fatal "load program")
+       else if negb (go_version_ok b) then Some (Fatal "load program")
+       else None);
+    ("init checkers",
+       if first_ctor_error b then Some (Fatal "init checkers")
+       else if negb (selection_nonempty b) then Some (Fatal "init checkers")
+       else None) ].
+Definition run_cli_targets (c : target_config) : cli_outcome := run_steps (target_steps c).
 Definition target_config_valid (c : target_config) : bool := cli_valid (tc_base c) && tc_all_targets_yield c.
+
+(* before the repair the patterns went to pkgload.LoadPackages, which passes over nameless packages, and nobody
+   looked at the packages' Errors: an argument that yields nothing changed nothing *)
+Definition run_cli_targets_prefix (c : target_config) : cli_outcome := run_cli (tc_base c).
 
 (* ---------------- round 5: the sub-command dispatcher ----------------
    cmd/go-critic/main.go run() + github.com/cristalhq/acmd Runner.Run/findCmd, cmd/go-critic/doc.go runDocs.
@@ -144,9 +159,9 @@ Definition dispatch (argv : list string) : dispatched :=
   match argv with
   | [] => DError "no args provided"
   | c :: rest =>
-      (* findCmd compares the word with each command's Name AND Alias; no command has an alias, so the empty
-         word equals every alias and selects the first command of the sorted list: check *)
-      if String.eqb c "check" || String.eqb c "" then DCheck rest
+      (* run() refuses the empty word before the runner sees it *)
+      if String.eqb c "" then DError ("no such command " ++ quote c)
+      else if String.eqb c "check" then DCheck rest
       else if String.eqb c "doc" then DDoc rest
       else if String.eqb c "help" then DHelp
       else if String.eqb c "version" then DVersion
@@ -180,7 +195,27 @@ Definition main_status (known : string -> bool) (check_status : list string -> Z
   | DError _ => 1
   end.
 
-(* before the repair run() only printed the runner's error *)
+(* the runner alone (github.com/cristalhq/acmd findCmd) compares the word with each command's Name AND Alias; no
+   command has an alias, so the empty word equals every alias and selects the first command of the sorted list: check *)
+Definition dispatch_prefix (argv : list string) : dispatched :=
+  match argv with
+  | [] => DError "no args provided"
+  | c :: rest =>
+      if String.eqb c "check" || String.eqb c "" then DCheck rest
+      else if String.eqb c "doc" then DDoc rest
+      else if String.eqb c "help" then DHelp
+      else if String.eqb c "version" then DVersion
+      else DError ("no such command " ++ quote c)
+  end.
+Definition main_status_empty_word_prefix (known : string -> bool) (check_status : list string -> Z) (argv : list string) : Z :=
+  match dispatch_prefix argv with
+  | DCheck a => check_status a
+  | DDoc a => doc_status known a
+  | DHelp | DVersion => 0
+  | DError _ => 1
+  end.
+
+(* before the earlier repair run() only printed the runner's error *)
 Definition main_status_prefix (known : string -> bool) (check_status : list string -> Z) (argv : list string) : Z :=
   match dispatch argv with
   | DCheck a => check_status a
